@@ -509,11 +509,11 @@ def _gen_case(rng, cid, kind, family, share=None, rate=None):
 
 
 def replay(cases, chunk=400):
-    """run every case on the implementation and through the model; returns [(case, StampRun, model lines)].
+    """run every case on the implementation and through the model; yields (case, StampRun, model lines) chunk by chunk (a generator:
+    the runs of a chunk - environments, scheduler objects, traces - are released once the consumer has moved on).
     The instances of a `multi` case are replayed as cases of their own (`<cid>.p<j>`); their observation and model
     streams are appended to those of the first instance behind a `PEER j` line, so that one comparison covers the group."""
     from vlib.util import run_driver, split_cases
-    out = []
     for i in range(0, len(cases), chunk):
         part, text, runs = cases[i:i + chunk], [], {}
         for c in part:
@@ -529,8 +529,7 @@ def replay(cases, chunk=400):
                 pm = model.get(f"{c['cid']}.p{j + 1}")
                 r.obs = r.obs + [f'PEER {j + 1}'] + pr.obs
                 m = None if (m is None or pm is None) else m + [f'PEER {j + 1}'] + pm
-            out.append((c, r, m))
-    return out
+            yield (c, r, m)
 
 
 def expected_stamps(c, run):
